@@ -32,7 +32,7 @@ LOOKALIKES = ["", " ", "1", " 1 ", "1.0", "-0", "1e5", "1E400", "null", "None", 
               "é", "日本語", "\x00", "\x1f", "a\nb", "\t[1]\n", "0x10", "1_000", "0123", "1/2", "2020-01-01", "12:30:00", "PT1S",
               "00000000-0000-0000-0000-000000000001", "[1, [2, [3]]]", '{"a": {"b": [1, 2.5, null, true]}}', "x" * 5000, "[" + "1," * 500 + "1]",
               '{"a":1,"a":2}', "1 2", "[1] [2]", "tru", "nul", "+1", ".5", "5.", "1e", "--1", '["a", "b"]', "b'x'", "...", "a b", "[[1, 2], [3, 4]]",
-              '{"f0": 1, "f1": "x", "x": 2.5}', "100000000000000000000000000000", "[100000000000000000000000000000]", "-9223372036854775809"]
+              '{"f0": 1, "f1": "x", "x": 2.5}', '"a\\/b"', '"\\ud83d\\ude00"', '["\\/", "\\b\\f"]', '{"k\\/": "\\u0041"}', "100000000000000000000000000000", "[100000000000000000000000000000]", "-9223372036854775809"]
 
 
 def carriers(text):
